@@ -120,6 +120,14 @@ def run(ck):
     if not quick:
         swept += _core.phase_tasks("timeout", pq, [("TimeoutExecutor-t", "sub3")], range(1, 90), range(1, 40, 3),
                                    prefix=[["sub1", 10000], ["sub2", 10000], ["env1", 10000]])
+    # the clock moves WHILE the timeout thread partitions its jobs (one tick, at its k-th clock reading): a pass woken at
+    # the very instant of a deadline must still put every job either among the overdue or among the pending ones
+    pk = {"flavour": "manual", "jobs": [{"T": 1000, "S": 0, "D": 0, "C": True}, {"T": 5000, "S": 1000, "D": 0, "C": True},
+                                        {"T": 1000, "S": 1, "D": 0, "C": False}], "horizon": 4000}
+    for k in range(1, 40):
+        for strat in (["random", 5, 0.5], ["sticky"]):
+            swept.append({"scen": "timeout", "params": pk, "strat": strat, "gran": "sync", "clock_bump": ["TimeoutExecutor-t", k],
+                          "facts": {"flavour": "manual", "directed": True}})
     ck.run_and_validate(swept, TRACE, nontrivial=lambda t, r: True)
     ck.assumptions += [
         "virtual time: timers fire one tick late, time advances only when no thread can run",
